@@ -65,7 +65,9 @@ func (c *sqlConn) Begin() (driver.Tx, error) {
 var (
 	reSelectOne    = regexp.MustCompile(`(?i)^\s*select\s+key_record\s+from\s+encryption_key\s+where\s+id\s*=\s*(\S+)\s+and\s+created\s*=\s*(\S+)\s*$`)
 	reSelectLatest = regexp.MustCompile(`(?i)^\s*select\s+key_record\s+from\s+encryption_key\s+where\s+id\s*=\s*(\S+)(\s+order\s+by\s+created(\s+(asc|desc))?)?(\s+limit\s+(\d+))?\s*$`)
-	reInsert       = regexp.MustCompile(`(?i)^\s*insert\s+into\s+encryption_key\s*\(\s*id\s*,\s*created\s*,\s*key_record\s*\)\s*values\s*\(\s*(\S+?)\s*,\s*(\S+?)\s*,\s*(\S+?)\s*\)\s*$`)
+	// INSERT, optionally with one of the "keep the existing row" forms: INSERT IGNORE / ON DUPLICATE KEY
+	// UPDATE <no-op> (MySQL), ON CONFLICT [(id, created)] DO NOTHING (PostgreSQL)
+	reInsert = regexp.MustCompile(`(?i)^\s*insert\s+(ignore\s+)?into\s+encryption_key\s*\(\s*id\s*,\s*created\s*,\s*key_record\s*\)\s*values\s*\(\s*(\S+?)\s*,\s*(\S+?)\s*,\s*(\S+?)\s*\)\s*(on\s+conflict(\s*\(\s*id\s*,\s*created\s*\))?\s+do\s+nothing|on\s+duplicate\s+key\s+update\s+(\w+)\s*=\s*(\w+))?\s*$`)
 )
 
 // arg resolves a placeholder to its argument.
@@ -217,10 +219,31 @@ func (c *sqlConn) ExecContext(_ context.Context, q string, args []driver.NamedVa
 	if m == nil {
 		panic(HarnessError{"sql statement not understood by the fake: " + q})
 	}
+	keepExisting := false
+	switch {
+	case m[1] != "":
+		if d.Dialect != "mysql" {
+			return nil, fmt.Errorf("syntax error at or near \"IGNORE\"")
+		}
+		keepExisting = true
+	case strings.HasPrefix(strings.ToLower(m[5]), "on conflict"):
+		if d.Dialect != "postgres" {
+			return nil, fmt.Errorf("syntax error near 'ON CONFLICT'")
+		}
+		keepExisting = true
+	case m[5] != "":
+		if d.Dialect != "mysql" {
+			return nil, fmt.Errorf("syntax error at or near \"DUPLICATE\"")
+		}
+		if !strings.EqualFold(m[7], m[8]) {
+			panic(HarnessError{"sql statement not understood by the fake: " + q})
+		}
+		keepExisting = true
+	}
 	seq := 0
 	var vals [3]driver.Value
 	for i := 0; i < 3; i++ {
-		v, err := d.arg(m[1+i], &seq, args)
+		v, err := d.arg(m[2+i], &seq, args)
 		if err != nil {
 			return nil, err
 		}
@@ -240,6 +263,14 @@ func (c *sqlConn) ExecContext(_ context.Context, q string, args []driver.NamedVa
 	rec, err := asString(vals[2])
 	if err != nil {
 		return nil, err
+	}
+	if _, dup := d.rows[id][created]; dup && keepExisting {
+		// the statement succeeds and changes nothing: zero rows affected
+		d.S.Point(simrt.KSeam, "sql.exec.ret")
+		if f == "after" {
+			return nil, ErrInjected
+		}
+		return driver.RowsAffected(0), nil
 	}
 	if _, dup := d.rows[id][created]; dup {
 		d.S.Point(simrt.KSeam, "sql.exec.ret")
